@@ -166,8 +166,8 @@ Section Crypto.
   Hypothesis aes_len : forall k n p a, blen (aesgcm_encrypt k n p a) = blen p + 16.
   Hypothesis rnd_len : forall n k, 0 <= k -> blen (urandom n k) = k.
 
-  Local Notation KMS := (kms_encrypt aesgcm_encrypt urandom key_file).
-  Local Notation GKA := (generate_kms_artifacts aesgcm_encrypt urandom key_file).
+  Local Notation KMS := (kms_encrypt aesgcm_encrypt urandom hash key_file).
+  Local Notation GKA := (generate_kms_artifacts aesgcm_encrypt urandom hash key_file).
   Local Notation EAG := (encrypt_and_generate aesgcm_encrypt urandom hash key_file).
   Local Notation CLI := (cli_encrypt_and_generate aesgcm_encrypt urandom hash key_file).
 
@@ -189,7 +189,7 @@ Section Crypto.
     unfold generate_kms_artifacts. intros H. hstep H.
     match goal with E : bytes_of_ints _ = Ok _ |- _ => apply boi_len in E; subst end.
     cbv zeta in H. repeat hstep H.
-    match goal with E : kms_encrypt _ _ _ _ _ _ _ _ = Ok ?p |- _ => destruct p as [[[nonce tag] ct] e1]; apply kms_spec in E;
+    match goal with E : kms_encrypt _ _ _ _ _ _ _ _ _ = Ok ?p |- _ => destruct p as [[[nonce tag] ct] e1]; apply kms_spec in E;
       destruct E as (-> & -> & Ea & Lt) end.
     cbv beta iota zeta in H. injection H as <- <- <-.
     exists tag, ct. split; [lia|]. split; [reflexivity|]. split; [rewrite <- app_assoc; reflexivity|]. split; [assumption|].
@@ -222,7 +222,7 @@ Section Crypto.
       destruct (hash_lookup halg hash_table) as [[fam n]|] eqn:HL; [injection E as <- | discriminate E] end.
     cbv zeta in G0. unfold generate_digest_size_for_plain_text in G0. rewrite HL in G0. cbv beta iota zeta in G0.
     hstep G0.
-    match goal with E : generate_kms_artifacts _ _ _ _ _ _ _ _ = Ok ?p |- _ => destruct p as [[asset cek] e2]; apply gka_spec in E;
+    match goal with E : generate_kms_artifacts _ _ _ _ _ _ _ _ _ = Ok ?p |- _ => destruct p as [[asset cek] e2]; apply gka_spec in E;
       destruct E as (tg & c & Kw & -> & -> & Lt & Ea) end.
     cbv beta iota zeta in G0. hstep G0.
     match goal with E : generate_encryption_info_and_encrypted_payload _ _ _ _ = Ok ?p |- _ => destruct p as [[c' tg'] info'];
